@@ -23,8 +23,8 @@
                 op-not-exactly-at-its-location, op-radix-mismatch, num_operations, num_cycles,
                 next-prev-disagree-with-grid, front-rear, first_on-last_on, gate_counts, num_params,
                 coupling_graph, active_qudits, depth, iteration-count, iteration-order;
-                internal-error-on-valid-call (arguments not declared invalid, exception outside the documented
-                ValueError / IndexError / TypeError family); state-changed-by-rejected-call. *)
+                internal-error-on-valid-call (consistent circuit, arguments not declared invalid, exception outside
+                the documented ValueError / IndexError / TypeError family). *)
 EXTENDS CircuitOps, Json, IOUtils
 
 Traces == JsonDeserialize(IOEnv.TRACE_FILE)
@@ -55,11 +55,15 @@ IterOrderBad(X, it) ==
      LET s == SelectSeq(it, LAMBDA p : q \in Range(X.ops[At(X, p[1] + 1, p[2])].loc)) IN
      \E k \in 1..Len(s) - 1 : s[k][1] >= s[k + 1][1]
 
-ViewVerdict(X, V) ==
+WellFormed(X) == ~HasEmptyCycle(X) /\ OpsAtLocation(X) /\ ~RadixBad(X)
+
+\* Structural clauses are charged to the call that introduced the defect (Bf = state before the call); a defect
+\* that was already there is not reported again, and the remaining views are still compared where they make sense.
+ViewVerdict(Bf, X, V) ==
   IF V.verr # "" THEN "view-raised"
-  ELSE IF HasEmptyCycle(X) THEN "empty-cycle"
-  ELSE IF ~OpsAtLocation(X) THEN "op-not-exactly-at-its-location"
-  ELSE IF RadixBad(X) THEN "op-radix-mismatch"
+  ELSE IF HasEmptyCycle(X) /\ ~HasEmptyCycle(Bf) THEN "empty-cycle"
+  ELSE IF ~OpsAtLocation(X) THEN (IF OpsAtLocation(Bf) THEN "op-not-exactly-at-its-location" ELSE "ok")
+  ELSE IF RadixBad(X) /\ ~RadixBad(Bf) THEN "op-radix-mismatch"
   ELSE IF V.num_operations # NumOps(X) THEN "num_operations"
   ELSE IF V.num_cycles # NC(X) THEN "num_cycles"
   ELSE IF Len(V.iter) # NumOps(X) \/ Range(V.iter) # OpPoints(X) THEN "iteration-count"
@@ -75,18 +79,23 @@ ViewVerdict(X, V) ==
   ELSE IF V.depth # Depth(X) THEN "depth"
   ELSE "ok"
 
+\* C04.  The property speaks about calls on a consistent circuit: once C05 has reported an inconsistent state,
+\* exceptions of later calls are not judged (program order still is, as long as operations sit at their locations).
 V4(s, B, A) ==
   LET v == Validity(s.call, B) IN
-  IF s.exc # "" THEN (IF v = "valid" /\ s.exc \in Documented THEN "valid-call-rejected" ELSE "ok")
+  IF ~OpsAtLocation(B) THEN "ok"
+  ELSE IF s.exc # "" THEN (IF v = "valid" /\ s.exc \in Documented /\ WellFormed(B) THEN "valid-call-rejected" ELSE "ok")
   ELSE IF v = "valid" THEN (IF Acceptable(s.call, B, A) THEN "ok" ELSE "program-order")
   ELSE IF s.call.name \in StructureOnlyNames /\ PerQudit(A) # PerQudit(B) THEN "program-order"
   ELSE "ok"
 
+\* C05.  Whether a rejected call leaves the circuit unchanged is not decided (batch calls are documented nowhere as
+\* atomic); the views of the state it leaves behind are judged like any other state.
+\* After an exception outside the documented family the object may be half-updated: its views are not judged.
 V5(s, B, A) ==
-  LET v == Validity(s.call, B) IN
-  IF s.exc # "" /\ s.exc \notin Documented /\ v # "invalid" THEN "internal-error-on-valid-call"
-  ELSE IF s.exc # "" /\ (A.nq # B.nq \/ A.radix # B.radix \/ Layout(A) # Layout(B)) THEN "state-changed-by-rejected-call"
-  ELSE ViewVerdict(A, s.views)
+  IF s.exc # "" /\ s.exc \notin Documented
+    THEN (IF WellFormed(B) /\ Validity(s.call, B) # "invalid" THEN "internal-error-on-valid-call" ELSE "ok")
+  ELSE ViewVerdict(B, A, s.views)
 
 Drifted(s, B, A) ==
   /\ T.drift /\ s.exc = "" /\ Validity(s.call, B) = "valid"
